@@ -54,6 +54,8 @@ func checkC07(c *Ctx) {
 	r.Rule("C07.e2", "package-level variables holding shared mutable storage (map/pointer/slice) are exactly the inventoried ones, and each occurrence is the direct operand of a lookup or of its frozen writer — never stored into a value, returned or passed on (an alias would be state shared by every definition that receives it)", 5)
 	r.Rule("C07.f", "per-scope tables are written only by declaration registration", 5)
 	r.Rule("C07.g", "type-instance keys are registered where they are constructed", 6)
+	r.Rule("C07.h", "the scope tables are read only where a name is referenced (variable reference, type name, record literal): frozen who-may-read table", 8)
+	r.Rule("C07.i", "the names of hoisted type parameters are a function of the definition alone: Ti by position among its own leftover variables (closed forms of InferLfd, hoistTVar, newTName)", 3)
 
 	f := c.LoadFC("fc")
 	if f == nil {
@@ -66,6 +68,17 @@ func checkC07(c *Ctx) {
 	nr := noReturn(f.Prog, frtProg)
 	// (a)
 	runPair(c, f, nr)
+	checkScopeReaders(c, f, "C07.h")
+	{
+		var ps []pin
+		for _, p := range c02Pins {
+			switch p.fn {
+			case "InferLfd", "hoistTVar", "newTName":
+				ps = append(ps, p)
+			}
+		}
+		c.checkPins(f, "C07.i", ps)
+	}
 
 	// (b)
 	if t, fn := f.Term("parseRootLet"); fn != nil {
@@ -422,5 +435,61 @@ func checkMutableGlobals(c *Ctx, f *FC) {
 		for _, g := range sortedKeysB(esc) {
 			r.Bad("C07.e2", g, "escapes in "+fn.Name, c.Pos(f.M.Fset, fn.Decl.Pos()), "the shared mutable variable "+g+" is stored into a value, returned or passed on in "+fn.Name+" instead of being the direct operand of a lookup: every value that receives it aliases one storage, so what one definition (or one package_info block, or one file) adds is seen by all later ones")
 		}
+	}
+}
+
+// (h) who may READ the scope tables.  A definition is affected by another only through a name it references: the
+// tables of a scope are consulted where a name is referenced — a variable reference, a type name, a record literal —
+// and nowhere else.  A further reader (a "not defined yet?" test at a binder, a choice of fresh names that avoids
+// the names in scope) makes the translation of a definition depend on unrelated definitions that happen to be in
+// scope.  Frozen who-may-reference table on resolved symbols; a helper added since the review counts as the reviewed
+// functions that use it.
+var scopeReaders = map[string][]string{
+	"scLookupVarFac":       {"parseVarRef", "refVar"},
+	"scLookupTypeFac":      {"parseAtomType"},
+	"scLookupRecFac":       {"parseRecordGen"},
+	"scLookupRecFacByName": {"parseRecordGen"},
+	"scLookupRecFacCur":    {"scLookupRecFac"},
+	"SCSDict":              {"scDefVar", "scRegisterVarFac", "scRegisterRecFac", "scRegisterTypeFac", "scLookupVarFac", "scLookupRecFacCur", "scLookupRecFacByName", "scLookupTypeFac"},
+	"SCParent":             {"popScope", "scLookupVarFac", "scLookupRecFac", "scLookupRecFacByName", "scLookupTypeFac"},
+	"SCHasParent":          {"scLookupVarFac", "scLookupRecFac", "scLookupRecFacByName", "scLookupTypeFac"},
+}
+
+func checkScopeReaders(c *Ctx, f *FC, rule string) {
+	r := c.R
+	refs := map[string]map[string]bool{}
+	for _, at := range f.Attributed() {
+		owner := at.Owner.Name
+		ir.WalkFunc(at.Body, func(t ir.Term) bool {
+			if fr, ok := t.(*ir.FuncRef); ok && strings.HasPrefix(fr.Key, f.Path+".") {
+				name := strings.TrimPrefix(fr.Key, f.Path+".")
+				if _, ok := scopeReaders[name]; ok && owner != name {
+					if refs[name] == nil {
+						refs[name] = map[string]bool{}
+					}
+					refs[name][owner] = true
+				}
+			}
+			return true
+		})
+	}
+	for _, sym := range sortedKeys(scopeReaders) {
+		allowed := map[string]bool{}
+		for _, a := range scopeReaders[sym] {
+			allowed[a] = true
+		}
+		var extra []string
+		for h := range refs[sym] {
+			if !allowed[h] {
+				extra = append(extra, h)
+			}
+		}
+		sort.Strings(extra)
+		if len(refs[sym]) == 0 {
+			r.Undecided(rule, sym, "who-may-read", "fc", "symbol not found or never referenced (renamed?)")
+			continue
+		}
+		r.Check(len(extra) == 0, rule, sym, "who-may-read", "fc", sym+" is referenced only by "+strings.Join(sortedKeysB(refs[sym]), ", ")+" — where a name is referenced",
+			sym+" is also referenced by "+strings.Join(extra, ", ")+": the scope tables are consulted outside name resolution, so what this function decides or emits can depend on unrelated definitions that happen to be in scope (their presence, order, or the file they are in)")
 	}
 }
